@@ -13,6 +13,16 @@ fn lonlat() -> (f64, f64) {
   (lon, lat)
 }
 
+/// Reference position of the longitude: (quarter 0..=3, u in [-1, 1]) with global X = 2 quarter + 1 + u. Negative longitudes are
+/// mirrored on (quarter, u) directly: forming 8 - x would round to 8 for tiny x and change the quarter.
+fn ref_quarter_u(lon: f64) -> (u64, f64) {
+  let x = f64::from_bits(lon.to_bits() & 0x7FFF_FFFF_FFFF_FFFF) * FOUR_OVER_PI_K;        // in [0, 32.1]
+  let x8 = x - 8.0 * ((x / 8.0) as u64 as f64);                                          // x mod 8, exact
+  let q8 = (x8 / 2.0) as u64;                                                            // 0..=3
+  let up = x8 - (2 * q8 + 1) as f64;                                                     // exact, in [-1, 1)
+  if lon.to_bits() >> 63 == 0 { (q8, up) } else { (3 - q8, -up) }
+}
+
 /// not -0.0 and not a negative subnormal (what the exponent-bit scaling of hash_v2 needs at depth 0 in the dev profile)
 fn sign_ok(v: f64) -> bool { !(v.to_bits() >> 63 == 1 && v > -2.2250738585072014e-308) }
 
@@ -51,40 +61,47 @@ fn k_c01_r(region: u8, neg: bool, lite: bool) {
 /// Polar clause: decided for cosines with at most 10 significant bits (see kani/c17.rs for the reason).
 /// region: 0 = north cap, 1 = equatorial, 2 = south cap; neg: sign bit of lon;
 /// bits: polar caps only: number of significant bits of the cosine for which the product clause is decided (0 = product clause off)
-fn k_c01_p(region: u8, neg: bool, bits: u8) {
+/// quarter: floor((|lon| 4/pi mod 8) / 2) in 0..=3; turn: 0 = |lon| 4/pi < 8 (first turn), 1 = later turns
+fn k_c01_p(region: u8, neg: bool, bits: u8, quarter: u8, turn: u8) {
   let (lon, lat) = lonlat();
   kani::assume((lon.to_bits() >> 63 == 1) == neg);
   kani::assume(match region { 0 => lat > C_T, 1 => lat >= -C_T && lat <= C_T, _ => lat < -C_T });
+  {
+    let xa = f64::from_bits(lon.to_bits() & 0x7FFF_FFFF_FFFF_FFFF) * FOUR_OVER_PI_K;
+    kani::assume((xa < 8.0) == (turn == 0));
+    let xm = xa - 8.0 * ((xa / 8.0) as u64 as f64);
+    kani::assume(xm >= 2.0 * quarter as f64 && xm < 2.0 * quarter as f64 + 2.0);
+  }
   let (d0h, l, h) = Layer::d0h_lh_in_d0c(lon, lat);
   kani::assume(d0h < 12);                                                                   // decided by lemma R
-  let x = f64::from_bits(lon.to_bits() & 0x7FFF_FFFF_FFFF_FFFF) * FOUR_OVER_PI_K;        // in [0, 32.1]
-  let x8 = x - 8.0 * ((x / 8.0) as u64 as f64);                                          // x mod 8, exact
-  let xg = if lon.to_bits() >> 63 == 0 { x8 } else if x8 == 0.0 { 0.0 } else { 8.0 - x8 };  // global X in [0, 8)
+  let (rq, ru) = ref_quarter_u(lon);
+  let xg = (2 * rq + 1) as f64 + ru;                                                       // global X in [0, 8]
   let xc = BASE_CX[d0h as usize] as f64 + l;
   let yc = BASE_CY[d0h as usize] as f64 + h - 1.0;
   let tol = 1.4210854715202004e-14;   // 2^-46
   let alat = f64::from_bits(lat.to_bits() & 0x7FFF_FFFF_FFFF_FFFF);
-  kani::cover!(lon > 7.0 || lon < -7.0, "second turn");
+  kani::cover!(true, "domain non empty");
   if region == 1 {
     let yr = lat.sin() * 1.5;
     let mut dx = xc - xg;
     if dx > 4.0 { dx -= 8.0; }
     if dx < -4.0 { dx += 8.0; }
     kani::cover!(d0h >= 8, "equatorial point in a south polar base cell");
-    kani::cover!(d0h >= 4 && d0h < 8, "equatorial base cell");
+    kani::cover!(d0h < 4, "equatorial point in a north polar base cell");
     assert!(dx <= tol && dx >= -tol && (yc - yr) <= tol && (yc - yr) >= -tol, "C01-P: (base cell, l, h) is not the reference projection of the position (equatorial region)");
   } else {
     let c = (alat / 2.0 + PI_OVER_FOUR_K).cos();
     let t = SQRT6_K * c;
-    let q = (xg / 2.0) as u64 as f64;           // facet 0..3
-    let xm2 = xg - 2.0 * q;                     // in [0, 2)
+    let q = rq as f64;                          // facet 0..3
+    let xm2 = ru + 1.0;                         // in [0, 2]
     let yr = if region == 0 { 2.0 - t } else { t - 2.0 };
     assert!((yc - yr) <= tol && (yc - yr) >= -tol, "C01-P: h is not the reference projection of the latitude (polar cap)");
-    if xm2 != 0.0 {                             // positions exactly on a facet seam are decided by the native oracle only
+    if xm2 != 0.0 && xm2 != 2.0 {               // positions exactly on a facet seam are decided by the native oracle only
       // base cell = the facet of the longitude; l has the side of the longitude in its facet and stays inside the facet
       assert!(d0h as f64 == q + if region == 0 { 0.0 } else { 8.0 }, "C01-P: wrong polar base cell for the longitude");
       let al = if l < 0.0 { -l } else { l };
-      assert!(l == 0.0 || (l < 0.0) == (xm2 < 1.0), "C01-P: l is on the wrong side of the facet centre (polar cap)");
+      let dc = if xm2 < 1.0 { 1.0 - xm2 } else { xm2 - 1.0 };
+      assert!(al <= tol || dc <= tol || (l < 0.0) == (xm2 < 1.0), "C01-P: l is on the wrong side of the facet centre (polar cap)");
       if bits == 255 {
         // |l| = |x t| <= t needs the monotonicity of the float multiplier: 20+ min, thorough tier
         assert!(al <= t + tol, "C01-P: l is outside the facet (polar cap)");
@@ -98,6 +115,41 @@ fn k_c01_p(region: u8, neg: bool, bits: u8) {
           assert!(dx <= tol && dx >= -tol, "C01-P: l is not the reference projection of the longitude (polar cap)");
         }
       }
+    }
+  }
+}
+
+/// Coarse placement (quick tier): the reference projection of the position lies in (or within 2^-20 of) the closed diamond of the
+/// base cell returned by the real Layer::d0h_lh_in_d0c. Independent of the in-cell coordinates (decided by lemma P, thorough tier).
+fn k_c01_b(region: u8, neg: bool) {
+  let (lon, lat) = lonlat();
+  kani::assume((lon.to_bits() >> 63 == 1) == neg);
+  kani::assume(match region { 0 => lat > C_T, 1 => lat >= -C_T && lat <= C_T, _ => lat < -C_T });
+  let (d0h, _l, _h) = Layer::d0h_lh_in_d0c(lon, lat);
+  kani::assume(d0h < 12);                                                                   // decided by lemma R
+  let (rq, ru) = ref_quarter_u(lon);
+  kani::cover!(lon > 7.0 || lon < -7.0, "second turn");
+  if region == 1 {
+    let yr = lat.sin() * 1.5;
+    // the quarter square [2q, 2q+2] x [-1, 1] is cut by its diagonals into the north polar cell q, the south polar cell 8+q and the
+    // two equatorial cells centred at x = 2q (west) and x = 2q+2 (east); containment in a triangle = two comparisons
+    let q = rq;
+    let u = ru;
+    let au = if u < 0.0 { -u } else { u };
+    let ay = if yr < 0.0 { -yr } else { yr };
+    let tol = 9.5367431640625e-07;   // 2^-20
+    kani::cover!(d0h >= 8, "equatorial point in a south polar base cell");
+    kani::cover!(d0h < 4, "equatorial point in a north polar base cell");
+    let ok = if d0h < 4 { d0h as u64 == q && au <= yr + tol }
+             else if d0h >= 8 { d0h as u64 - 8 == q && au <= -yr + tol }
+             else if d0h as u64 - 4 == q { u <= -ay + tol }
+             else { d0h as u64 - 4 == ((q + 1) & 3) && u >= ay - tol };
+    assert!(ok, "C01-B: the position is not in the base cell returned (equatorial region)");
+  } else {
+    let q = rq as f64;
+    let xm2 = ru + 1.0;
+    if xm2 != 0.0 && xm2 != 2.0 {
+      assert!(d0h as f64 == q + if region == 0 { 0.0 } else { 8.0 }, "C01-B: wrong polar base cell for the longitude");
     }
   }
 }
